@@ -152,6 +152,8 @@ def sanity_reclass(schema):
         for c in d.constructors:
             by_name[c.lname] = d
         by_name[d.uname] = d
+    for fn in schema.functions:
+        by_name[fn.name] = fn
 
     def f(ev):
         cl = ev.get("class", "")
